@@ -27,16 +27,21 @@ void harness(void) {
 #endif
 
 #ifdef H_memRead
-/* domain split: every buffer of length >= 1 here, the empty buffer in H_memRead_empty (job C09.memRead_empty) */
+/* every buffer, the empty one included (since fix f244b72); H_memRead_empty keeps the dedicated check of the read of m[0] */
 void harness(void) {
 	const unsigned char *m = nondet_ptr(); size_t l = nondet_size(); KSI_FTLV *t = nondet_ptr();
 	int res;
-	__CPROVER_assume(l >= 1);   /* case split, the other case is job C09.memRead_empty */
+#ifdef FTLV_MEMREAD_ARITH
+	__CPROVER_assume(l >= 1);   /* precondition of the arithmetic variant */
+#endif
 	res = KSI_FTLV_memRead(m, l, t);
 	if (res == KSI_OK) REACH("element accepted"); else REACH("element rejected");
 	if (res == KSI_OK && l > 70000) REACH("accepted with trailing bytes");
 	if (res != KSI_OK && l >= 4) REACH("rejected: payload truncated");
 	if (res != KSI_OK && l == 1) REACH("rejected: one octet");
+#ifndef FTLV_MEMREAD_ARITH
+	if (res != KSI_OK && l == 0) REACH("rejected: empty buffer");
+#endif
 }
 #endif
 
